@@ -183,14 +183,141 @@ def hextileTiles (bpp W : Nat) (px : Array Pixel) : List TileRect → HexSrv →
 def serverHextile (bpp : Nat) (g : Geometry) (px : List Pixel) : Bytes :=
   hextileTiles bpp g.w px.toArray (tileGrid 16 g) {}
 
+/-! ### ZRLE (`zrle.c`, `zrleencodetemplate.c`, `zrlepalettehelper.c`) -/
+
+/-- the bytes `zrleOutStreamWRITE_PIXEL` writes: the whole pixel, or (24A) wire bytes 0‥2, or
+(24B) wire bytes 1‥3 -/
+def cpixBytes : CPix → Pixel → Bytes
+  | .full n, p => pixBytes n p
+  | .lo3, p => pixBytes 3 p
+  | .hi3, p => pixBytes 3 (p / 256)
+
+/-- maximal runs of equal pixels, in order: (pixel, length) -/
+def runsOf : List Pixel → List (Pixel × Nat)
+  | [] => []
+  | p :: ps =>
+    match runsOf ps with
+    | (q, n) :: rest => if p = q then (q, n + 1) :: rest else (p, 1) :: (q, n) :: rest
+    | [] => [(p, 1)]
+
+/-- `zrlePaletteHelperInsert` (the hash table is abstracted to "is it in the palette"): while fewer
+than 127 entries a new colour is appended and `size` grows, a known colour changes nothing; from
+127 on `size` grows on every call -/
+def paletteInsert (st : List Pixel × Nat) (p : Pixel) : List Pixel × Nat :=
+  if st.2 < 127 then (if st.1.contains p then st else (st.1 ++ [p], st.2 + 1)) else (st.1, st.2 + 1)
+
+/-- first pass of `ZRLE_ENCODE_TILE`: `runs`, `singlePixels`, palette, `ph->size` -/
+def zrleStats (rl : List (Pixel × Nat)) : Nat × Nat × List Pixel × Nat :=
+  rl.foldl (fun st r =>
+      let ps := paletteInsert (st.2.2.1, st.2.2.2) r.1
+      if r.2 = 1 then (st.1, st.2.1 + 1, ps.1, ps.2) else (st.1 + 1, st.2.1, ps.1, ps.2))
+    (0, 0, [], 0)
+
+def bitsPerPackedPixel (size : Nat) : Nat :=
+  [0, 1, 2, 2, 4, 4, 4, 4, 4, 4, 4, 4, 4, 4, 4, 4].getD (size - 1) 0
+
+/-- `zrlePaletteHelperLookup` -/
+def paletteIndex (pal : List Pixel) (p : Pixel) : Nat := pal.idxOf p
+
+/-- run length bytes: `len -= 1; while (len >= 255) { write 255; len -= 255 } write len` -/
+def runLenBytes : Nat → Nat → Bytes
+  | 0, n => [UInt8.ofNat n]
+  | f + 1, n => if n ≥ 255 then 255 :: runLenBytes f (n - 255) else [UInt8.ofNat n]
+
+def zrleRleBytes (cp : CPix) (usePalette : Bool) (pal : List Pixel) : List (Pixel × Nat) → Bytes
+  | [] => []
+  | (p, len) :: rest =>
+    (if len ≤ 2 ∧ usePalette then
+      (if len = 2 then [UInt8.ofNat (paletteIndex pal p)] else []) ++ [UInt8.ofNat (paletteIndex pal p)]
+    else
+      (if usePalette then [UInt8.ofNat (paletteIndex pal p + 128)] else cpixBytes cp p) ++
+        runLenBytes (len - 1) (len - 1)) ++
+    zrleRleBytes cp usePalette pal rest
+
+/-- packed-pixel row loop: `byte`, `nbits` as in the C code (the byte is not cleared after it is
+written; it is 8 bits wide) -/
+def packRow (bits : Nat) : List Nat → Nat → Nat → Bytes
+  | [], byte, nbits => if nbits > 0 then [UInt8.ofNat ((byte <<< (8 - nbits)) % 256)] else []
+  | i :: is, byte, nbits =>
+    let byte := ((byte <<< bits) ||| (i % 256)) % 256
+    if nbits + bits ≥ 8 then UInt8.ofNat byte :: packRow bits is byte 0
+    else packRow bits is byte (nbits + bits)
+
+def packRows (bits tw : Nat) (pal : List Pixel) : Nat → List Pixel → Bytes
+  | 0, _ => []
+  | h + 1, px => packRow bits ((px.take tw).map (paletteIndex pal)) 0 0 ++ packRows bits tw pal h (px.drop tw)
+
+/-- `ZRLE_ENCODE_TILE` without ZYWRLE (`zywrle_level = 0`) -/
+def zrleTile (cp : CPix) (tw th : Nat) (px : List Pixel) : Bytes :=
+  let rl := runsOf px
+  let (runs, singles, pal, size) := zrleStats rl
+  if size = 1 then u8 1 ++ cpixBytes cp (pal.headD 0)
+  else
+    let bo := cp.size
+    let est0 := tw * th * bo
+    let plain := (bo + 1) * (runs + singles)
+    let useRle0 := decide (plain < est0)
+    let est1 := if plain < est0 then plain else est0
+    let prle := bo * size + 2 * runs + singles
+    let c2 := decide (size < 128 ∧ prle < est1)
+    let est2 := if c2 then prle else est1
+    let packed := bo * size + tw * th * bitsPerPackedPixel size / 8
+    let c3 := decide (size < 17 ∧ packed < est2)
+    let useRle := if c3 then false else if c2 then true else useRle0
+    let usePalette := c3 || c2
+    let psize := if usePalette then size else 0
+    let pal' := if usePalette then pal else []
+    u8 ((if useRle then 128 else 0) + psize) ++ pal'.flatMap (cpixBytes cp) ++
+      (if useRle then zrleRleBytes cp usePalette pal rl
+       else if usePalette then packRows (bitsPerPackedPixel size) tw pal th px
+       else px.flatMap (cpixBytes cp))
+
+def zrleTiles (cp : CPix) (W : Nat) (px : Array Pixel) : List TileRect → Bytes
+  | [] => []
+  | t :: ts => zrleTile cp t.w t.h (extractTile px W t) ++ zrleTiles cp W px ts
+
+/-- the bytes handed to zlib for one ZRLE rectangle (= what the client gets after inflating) -/
+def serverZRLEData (cp : CPix) (g : Geometry) (px : List Pixel) : Bytes :=
+  zrleTiles cp g.w px.toArray (tileGrid 64 g)
+
+/-- CPIXEL choice of `rfbSendRectEncodingZRLE` (no test of `depth`, unlike the RFC) -/
+def serverCPix (f : PixFmt) : CPix :=
+  if f.bpp = 32 then
+    let ls := f.rMax <<< f.rShift < 2 ^ 24 ∧ f.gMax <<< f.gShift < 2 ^ 24 ∧ f.bMax <<< f.bShift < 2 ^ 24
+    let ms := f.rShift > 7 ∧ f.gShift > 7 ∧ f.bShift > 7
+    if (ls ∧ ¬ f.bigEndian) ∨ (ms ∧ f.bigEndian) then .lo3
+    else if (ls ∧ f.bigEndian) ∨ (ms ∧ ¬ f.bigEndian) then .hi3
+    else .full 4
+  else .full f.bytespp
+
+/-! ### row splitting of zlib.c / ultra.c -/
+
+/-- `ZLIB_MAX_SIZE(min)` = `ULTRA_MAX_SIZE(min)` -/
+def zlibMaxSize (w : Nat) : Nat := if w * 2 > 32768 then w * 2 else 32768
+
+/-- `rfbSendRectEncodingZlib` / `…Ultra`: pieces of at most `maxLines = ZLIB_MAX_SIZE(w) / w` lines -/
+def zlibSplit (x w : Nat) (maxLines : Nat) : Nat → Nat → Nat → List TileRect
+  | 0, _, _ => []
+  | f + 1, y, remaining =>
+    if remaining = 0 then [] else
+    let n := if maxLines < remaining then maxLines else remaining
+    ⟨x, y, w, n⟩ :: zlibSplit x w maxLines f (y + n) (remaining - n)
+
 /-- payload the server is predicted to send for a rectangle with the given (client-format)
-pixels; `some none` = the encoder falls back to Raw; `none` = no model for this encoding -/
+pixels; `some none` = the encoder falls back to Raw; `none` = no model for this encoding.
+For ZRLE the prediction is the *inflated* payload (length + tile data). -/
 def modelRect (f : PixFmt) (enc : Nat) (g : Geometry) (px : List Pixel) (_args : List Nat) :
     Option (Option Bytes) :=
   if enc = encRaw then some (some (pixelsBytes f.bytespp px))
   else if enc = encRRE then some (serverRRE f.bytespp g px)
   else if enc = encCoRRE then some (serverCoRRE f.bytespp g px)
   else if enc = encHextile then some (some (serverHextile f.bytespp g px))
+  else if enc = encZRLE then
+    let d := serverZRLEData (serverCPix f) g px
+    some (some (u32be d.length ++ d))
+  else if enc = encZlib then
+    let d := pixelsBytes f.bytespp px
+    some (some (u32be d.length ++ d))
   else none
 
 end VncModel.Enc.Server
